@@ -4,13 +4,14 @@ Model of the cover tree *batch construction* of `include/tapkee/neighbors/covert
 (`batch_create` → `batch_insert`, `split`, `dist_split`, `max_set`, `set_leaf_scale`, with `new_leaf` / `new_node` of
 `covertree/structures.hpp` and `v_array` / `pop` of `covertree_point.hpp`), statement by statement, into the tree type
 `CoverTree.CNode` the query model (`Model/CoverTree.lean`) runs on.  Code as of the repairs F-COVER-ZERO (e2bbcb6:
-`max_dist == 0.` tested directly) and F-COVER-SCALE (e30d89e: `leaf_scale`, `set_leaf_scale`).  Core Lean only.
+`max_dist == 0.` tested directly), F-COVER-SCALE (e30d89e: `leaf_scale`, `set_leaf_scale`) and F-COVER-TOP (7615484:
+the top scale is raised until `dist_of_scale(top_scale) >= max_dist`).  Core Lean only.
 
 * points are sample indices, `δ a b` is `distance(dcb, a, b, ·)`;
 * `get_scale(d) = (int)ceil(il2 * log(d))` and `dist_of_scale(s) = pow(base, s)` are floating-point functions: they
   are PARAMETERS `getScale : K → Int`, `distOfScale : Int → K` of the model (the driver feeds the values the real code
-  computes, printed by the harness).  The theorems (`Props/C02.lean`) need of them only
-  `0 ≤ distOfScale s` and `maxd ≤ distOfScale (getScale maxd)` for the largest distance `maxd` from the first point;
+  computes, printed by the harness).  The theorems (`Props/C02.lean`) need of them only `0 ≤ distOfScale s`
+  (well-formedness) and that `distOfScale` eventually exceeds / falls below the distances that occur (termination);
 * a `v_array<T>` is the list of its live elements `elements[0..index)` in index order (`last()` = last entry, `decr()` =
   drop it, `push` = append); the `dist` stack of a `ds_node` is kept head-first (`dist.last()` = head);
   arrays have value semantics here as in the C++ (`std::vector` members are copied);
@@ -18,7 +19,8 @@ Model of the cover tree *batch construction* of `include/tapkee/neighbors/covert
 * reading `last()` of / `decr()` on an empty array is undefined behaviour in the C++: error state `none`;
   a negative `top_scale - max_scale` (not representable in the query model's `scale : Nat`) is an error state too;
 * recursion depth is bounded by `fuel`, the `while (size(point_set) != 0)` loop by its own counter
-  (`|point_set| + |far|`, which every iteration decreases); `none` when either runs out
+  (`|point_set| + |far|`, which every iteration decreases), the loop raising the top scale by `fuel` again;
+  `none` when one of them runs out
   (`Proofs/CoverBuildFuel.lean`: it does not, given enough `fuel`);
 * width abstractions: `int` scales are `Int`, `short scale` / `unsigned short num_children` are unbounded `Nat`
   (|scale| < 5600 for doubles; `num_children < 65536` is an assumption of the tie).
@@ -210,6 +212,15 @@ def setLeafScaleL (ls : Nat) : List (CNode K) → List (CNode K)
   | c :: rest => setLeafScale ls c :: setLeafScaleL ls rest
 end
 
+/-- `while (dist_of_scale(top_scale) < max_dist) top_scale++;` (at most `cnt` increments) -/
+def raiseTop (distOfScale : Int → K) (maxDist : K) : Nat → Int → Option Int
+  | cnt, s =>
+    if distOfScale s < maxDist then
+      match cnt with
+      | 0 => none
+      | cnt + 1 => raiseTop distOfScale maxDist cnt (s + 1)
+    else some s
+
 /-- `batch_create(dcb, points)`; returns the tree and the member `leaf_scale` the query then uses -/
 def batchCreate (δ : Nat → Nat → K) (getScale : K → Int) (distOfScale : Int → K) (fuel : Nat) (pts : List Nat) :
     Option (CNode K × Nat) :=
@@ -220,20 +231,12 @@ def batchCreate (δ : Nat → Nat → K) (getScale : K → Int) (distOfScale : I
     match maxSet ps with
     | none => none
     | some maxDist =>
-      match batchInsert δ getScale distOfScale fuel p0 (getScale maxDist) (getScale maxDist) ps [] [] 100 with
+      match raiseTop distOfScale maxDist fuel (getScale maxDist) with   -- int top_scale = get_scale(max_dist); while ..
       | none => none
-      | some r => some (if 100 < r.leafScale then setLeafScale r.leafScale r.node else r.node, r.leafScale)
-
-/-- the hypothesis on the scale functions under which `batch_create` loses no sample at the top level: the largest
-    distance from the first point, unless it is zero (`get_scale(0)` is never used), does not exceed
-    `dist_of_scale(get_scale(·))` of itself (evaluated per run) -/
-def topCovered (δ : Nat → Nat → K) (getScale : K → Int) (distOfScale : Int → K) (pts : List Nat) : Bool :=
-  match pts with
-  | [] => true
-  | p0 :: rest =>
-    match maxSet (rest.map fun x => (⟨[δ p0 x], x⟩ : DS K)) with
-    | none => false
-    | some maxDist => decide (maxDist = 0) || decide (maxDist ≤ distOfScale (getScale maxDist))
+      | some topScale =>
+        match batchInsert δ getScale distOfScale fuel p0 topScale topScale ps [] [] 100 with
+        | none => none
+        | some r => some (if 100 < r.leafScale then setLeafScale r.leafScale r.node else r.node, r.leafScale)
 
 end
 
